@@ -91,7 +91,7 @@ def ensure_facts(config="A"):
         tmp = out + ".tmp"
         shutil.rmtree(tmp, ignore_errors=True)
         os.makedirs(tmp)
-        target = os.path.join(CACHE, f"target-{config}")
+        target = os.path.join(CACHE, f"target-{config}" + ("" if REPO == "/repo" else "-alt"))
         fp = os.path.join(target, "debug", ".fingerprint")
         if os.path.isdir(fp):
             for d in os.listdir(fp):
